@@ -115,6 +115,8 @@ class C12(core.PropertyCheck):
                 out += [".. figure:: /images/a.png", "   :alt: a figure", ""]
             elif r < 0.9:
                 out += [".. bogus-directive:: x", "", self.words(rng, 2), ""]
+            elif ctx.get("subs") and r < 0.97:
+                out += [f"Uses |{rng.choice(ctx['subs'])}| and |{rng.choice(ctx['subs'])}| here.", ""]
             else:
                 out += [self.words(rng, rng.randint(2, 8)) + ".", ""]
         if toctree:
@@ -136,8 +138,18 @@ class C12(core.PropertyCheck):
                 if rng.random() < 0.2:
                     body += " :ref:`index-l0`"
                 if path.endswith("-b.yaml") and getattr(self, "_xfile", True) and rng.random() < 0.5:
-                    # cross-file inheritance: the content comes from an entry of extracts-a.yaml (may be dangling)
-                    docs.append(f"ref: {r}\nsource:\n  file: extracts-a.yaml\n  ref: {rng.choice(['foo', 'bar', 'baz'])}\n")
+                    # cross-file inheritance: the content comes from an entry of extracts-a.yaml (may be dangling);
+                    # the heir may bring replacements of its own (some keys only the parent defines)
+                    own = ""
+                    if rng.random() < 0.5:
+                        own = "replacement:\n" + "".join(f'  {k}: "{self.words(rng, 1)}"\n' for k in rng.sample(["user", "datadir", "port"], rng.randint(1, 2)))
+                    docs.append(f"ref: {r}\nsource:\n  file: extracts-a.yaml\n  ref: {rng.choice(['foo', 'bar', 'baz'])}\n{own}")
+                    continue
+                if getattr(self, "_xfile", True) and rng.random() < 0.4:
+                    # placeholders filled from the entry's own replacement table (and, in heirs, from the heir's)
+                    body += " in {{datadir}} as {{user}}"
+                    rep_ = "replacement:\n" + "".join(f'  {k}: "{self.words(rng, 1)}"\n' for k in rng.sample(["user", "datadir", "port"], rng.randint(1, 3)))
+                    docs.append(f"ref: {r}\ncontent: |\n  {body}\n{rep_}")
                     continue
                 docs.append(f"ref: {r}\ncontent: |\n  {body}\n")
             return "---\n".join(docs) + "...\n"
@@ -176,6 +188,13 @@ class C12(core.PropertyCheck):
         pages = [f"page{i + 1}" for i in range(npages)]
         yaml = rng.choice(["includes/extracts-a.yaml", "includes/extracts-a.yaml", "includes/steps-setup.yaml"])
         ctx = {"pages": pages, "yaml": yaml}
+        toml = 'name = "c12"\n'
+        if rng.random() < 0.5:
+            # project-wide substitutions holding link roles without a title of their own: the title is injected at every use,
+            # on every postprocessing run, from whatever the target's heading currently is
+            toml += ("\n[substitutions]\n" + f'link = ":ref:`{rng.choice(pages + ["index"])}-l{rng.randint(0, 1)}`"\n'
+                     + f'page = ":doc:`/{rng.choice(pages + ["index"])}`"\n' + 'plain = "just *text*"\n')
+            ctx["subs"] = ["link", "page", "plain"]
         src = {"index.txt": None}
         for p in pages:
             src[p + ".txt"] = None
@@ -187,7 +206,7 @@ class C12(core.PropertyCheck):
         src["images/a.png"] = None
         for p in list(src):
             src[p] = self.gen_text(rng, p, ctx)
-        files = {"snooty.toml": 'name = "c12"\n'}
+        files = {"snooty.toml": toml}
         for p, t in src.items():
             files["source/" + p] = t
         # history
@@ -424,6 +443,10 @@ class C12(core.PropertyCheck):
                             named.add(m.group(1) if m else "?")
                         if named and all(nm in flipped and category(nm) in ("page", "include") for nm in named):
                             key = "stale-diagnostic:CannotOpenFile:doc-target-created-or-deleted"
+                            if d["file"] == "snooty.toml":
+                                # the existence check of a :doc: role inside a [substitutions] value of snooty.toml is made once,
+                                # when the project is opened
+                                key = "config-substitution:doc-target-created-or-deleted"
                     out.append((key, f"{where}: diagnostics of {d['file']} differ from the clean build: only in open project "
                                      f"{d['stale_or_extra']}, only in clean build {d['missing']}"))
                 elif d["kind"] == "metadata":
